@@ -86,3 +86,13 @@ VARIANTS += [
  V("c14-g3-moved-table-made-obsolete", "C14", "C39.G3", "compaction.go",
    "		if _, ok := deletedTables[ve.NewTables[i].Meta.TableNum]; ok {\n			// This file is being moved in this ve to a different level.\n			// Don't mark it as obsolete.\n			continue\n		}\n", ""),
 ]
+VARIANTS += [
+ V("c11-o4-seqnum-after-fragments", "C11", "C11.O4", "batch.go",
+   "	if b.data != nil {\n		// Note that this sequence number is not correct when this batch has not\n		// been applied since the sequence number has not been assigned yet. The\n		// correct sequence number will be set later. But it is correct when the\n		// batch is being replayed from the WAL.\n		b.seqNum = batch.SeqNum()\n	}\n	var rangeDelOffsets []flushableBatchEntry", "	var rangeDelOffsets []flushableBatchEntry"),
+ V("c39-a1-replayed-ingests-not-accumulated", "C39", "C39.A1", "open.go",
+   "			flushableIngests = append(flushableIngests, fi...)", "			flushableIngests = fi"),
+ V("c17-u1-bytes-equal-on-user-keys", "C17", "C17.U1", "iterator.go",
+   "	if !i.equal(i.key, i.iterKV.K.UserKey) {\n		i.pos = iterPosNext\n		return false\n	}", "	if !bytes.Equal(i.key, i.iterKV.K.UserKey) {\n		i.pos = iterPosNext\n		return false\n	}"),
+ V("c27-k1-blob-offset-updated-alone", "C27", "C27.K1", "sstable/blob/fetcher.go",
+   "		h := cr.indexBlock.dec.BlockHandle(physicalBlockIndex)\n", "		if cr.currentValueBlock.loaded && cr.currentValueBlock.physicalIndex == physicalBlockIndex {\n			cr.currentValueBlock.valueIDOffset = valueIDOffset\n			return nil, nil\n		}\n		h := cr.indexBlock.dec.BlockHandle(physicalBlockIndex)\n"),
+]
